@@ -58,17 +58,18 @@ def make_trace(design, ins, outs, events, meta=None, want_wf=False):
     sim.add_testbench(tb)
     sim.run()
     return {"n": net["n"], "nodes": net["nodes"], "ffs": net["ffs"], "init": init, "steps": steps,
+            "mems": net["mems"], "rds": net["rds"], "wrs": net["wrs"],
             "meta": meta or {}, "cells": len(net["nodes"]), "wf": rtlil_parse.wf_document(doc) if want_wf else None}
 
 
-def random_events(rng, ins, clocks, n, resets=()):
+def random_events(rng, ins, clocks, n, resets=(), coincident=True):
     """Events: either one clock toggles (or several clocks toggle together), or some non-clock inputs change."""
     events = []
     clk_state = {c: 0 for c in clocks}
     data = [k for k in ins if k not in clocks]
     for _ in range(n):
         if clocks and rng.random() < 0.5:
-            chosen = [c for c in clocks if rng.random() < 0.7] or [rng.choice(list(clocks))]
+            chosen = ([c for c in clocks if rng.random() < 0.7] if coincident else []) or [rng.choice(list(clocks))]
             ev = {}
             for c in chosen:
                 clk_state[c] ^= 1
